@@ -4,6 +4,7 @@ import (
 	"bytes"
 	"fmt"
 	"strings"
+	"time"
 
 	"github.com/lightninglabs/lightning-node-connect/gbn/vrt"
 )
@@ -164,4 +165,86 @@ func panicSite(stack string) string {
 		}
 	}
 	return "unknown"
+}
+
+// finalClose is the C12 oracle, evaluated after the drain (both ends closed
+// by the harness, DrainTime of virtual time passed).
+func finalClose(w *World, x *vrt.Exec) {
+	const bound = 10 * time.Second // FIN timeout (1s) + 3 boosted resend timeouts + slack
+	drainAt := x.Elapsed - w.sc.Cfg.DrainTime
+	for _, e := range []*Endpoint{w.C, w.S} {
+		var firstCloseReturn time.Duration = -1
+		var firstCloseSeq int64
+		for _, c := range e.calls("close") {
+			if !c.Returned {
+				w.fail("close/never-returns/"+e.Name,
+					"%s: Close called at %v by %s had not returned %v later (end of run)",
+					e.Name, c.Start, c.Thread, x.Elapsed-c.Start)
+				continue
+			}
+			if c.End-c.Start > bound {
+				w.fail("close/slow/"+e.Name, "%s: Close called at %v took %v (bound %v)",
+					e.Name, c.Start, c.End-c.Start, bound)
+			}
+			if c.Err != "" {
+				w.reached["close-returned-error"] = true
+			}
+			if firstCloseReturn < 0 || c.EndSeq < firstCloseSeq {
+				firstCloseReturn = c.End
+				firstCloseSeq = c.EndSeq
+			}
+		}
+		if firstCloseReturn < 0 {
+			continue
+		}
+		w.reached["closed:"+e.Name] = true
+		// Calls issued after Close returned must fail at once; calls
+		// that were blocked must have returned by now.
+		for _, c := range e.Calls {
+			if c.Kind != "send" && c.Kind != "recv" {
+				continue
+			}
+			if !c.Returned {
+				w.fail("close/call-hangs/"+e.Name+"/"+c.Kind,
+					"%s: %s started at %v is still blocked although Close returned at %v",
+					e.Name, c.Kind, c.Start, firstCloseReturn)
+				continue
+			}
+			if c.StartSeq > firstCloseSeq && c.Err == "" {
+				w.fail("close/call-after-close-succeeds/"+e.Name+"/"+c.Kind,
+					"%s: %s started at %v after Close had returned (%v) succeeded",
+					e.Name, c.Kind, c.Start, firstCloseReturn)
+			}
+			if c.Start < firstCloseReturn && c.End > firstCloseReturn+bound {
+				w.fail("close/blocked-call-slow/"+e.Name+"/"+c.Kind,
+					"%s: %s blocked since %v returned only at %v, Close returned at %v",
+					e.Name, c.Kind, c.Start, c.End, firstCloseReturn)
+			}
+		}
+	}
+	// Peer notification: when one side was closed by its application
+	// through Close and the transport worked, the other side's
+	// calls must have failed before the harness itself closed it.
+	if w.closersUsed > 0 && w.faultsUsed == 0 && !w.blackholed {
+		for _, pair := range [][2]*Endpoint{{w.C, w.S}, {w.S, w.C}} {
+			x0, y := pair[0], pair[1]
+			closedByApp := false
+			for _, c := range x0.calls("close") {
+				if strings.HasPrefix(c.Thread, "closer") && c.Returned && c.End <= drainAt {
+					closedByApp = true
+				}
+			}
+			if !closedByApp || y.Conn == nil {
+				continue
+			}
+			w.reached["peer-notified-checked"] = true
+			for _, c := range y.Calls {
+				if (c.Kind == "send" || c.Kind == "recv") && (!c.Returned || c.End > drainAt) {
+					w.fail("close/peer-not-notified/"+y.Name+"/"+c.Kind,
+						"%s was closed by its application (transport healthy) but %s's %s (started %v) was still blocked %v later when the harness shut down",
+						x0.Name, y.Name, c.Kind, c.Start, drainAt-c.Start)
+				}
+			}
+		}
+	}
 }
